@@ -19,13 +19,24 @@
                 given truth value;  `mayBreak s`, `mayCont s`, `mayNormal s`, `AlwaysReturns s`, `maySet f v s`.
   * `IsoBody allowed body`          decidable shape "try-body guarded for the allowed classes, handler silent,
                 no `return`/`break`" of a loop body — hypothesis of the per-iteration isolation theorem.
-  * `findLoop id s`                 the body of the loop with the given id inside a skeleton;
+  * `findLoop id s`                 the body of the loop with the given id inside a skeleton; `loops s`, `lastLoop s`,
+    `IsoLastLoop allowed s` — the same by position instead of by name;
     `lastOf s`, `dropLast s`, `startsWithGuard cond s`, `firstCall s` — shape of a statement sequence.
   * `catchAt s site e : Option Res` static resolution "an exception of class `e` raised by the call at `site`
                 is caught by handler `hid` / escapes" — what the correspondence check compares with the real
                 code, one frame of the dynamic stack at a time (`resolve`).
-  Theorems (Proofs/Guard.lean): `exec_sound`, `guard_sound`, `mayRet_sound`, `mayBreak_sound`, `exec_mono`,
-  `iso_loop`, `catchAt_sound`, `noSet_preserved`.
+  Theorems, all for every `Env`:
+    Proofs/Guard.lean     `exec_sound` (raise sets), `guard_sound` (AllGuarded ⇒ nothing escapes), `guard_sound_for`,
+                          `mayRet_sound`, `mayBreak_sound`, `exec_inv` / `exec_mono` (the trace only grows),
+                          `noSet_preserved`
+    Proofs/GuardRet.lean  `mayCont_sound`, `mayNormal_sound`, `returns_one_of`
+    Proofs/GuardIso.lean  `isoBody_step`, `iso_loopN`, `iso_loop`, `iso_loopN_calls` (per-iteration isolation),
+                          `catchAt_sound`, `catchAt_guarded`
+    Proofs/GuardProg.lean `isoLoopIn_spec`, `isoLastLoop_spec`, `isoCallLastLoop_spec`, `finally_runs`,
+                          `resolve_guarded`, `guarded_body_skipped`, `normal_last_assign`, `abnormal_before_last_assign`
+  Typical use for a new function `f` (e.g. C09's TaskHandler): add it to NAMED in harness/extract/guards.py, then
+  `theorem … : AllGuarded Extracted.Guards.f := by decide` + `guard_sound`, or
+  `isoLastLoop_spec RaiseSet.all Extracted.Guards.f (by decide)` for "every iteration runs whatever fails".
 -/
 import DeepModel.Py
 
@@ -302,6 +313,26 @@ def findLoop (id : String) : Stmt → Option Stmt
   | .tryFinally b f => (findLoop id b).orElse (fun _ => findLoop id f)
   | .scope _ b => findLoop id b
   | _ => none
+
+/-- every loop of a skeleton with its body, outer loops before the loops nested in them, in source order -/
+def loops : Stmt → List (String × Stmt)
+  | .loop id b => (id, b) :: loops b
+  | .seq a b => loops a ++ loops b
+  | .branch _ a b => loops a ++ loops b
+  | .tryExcept b _ _ h => loops b ++ loops h
+  | .tryFinally b f => loops b ++ loops f
+  | .scope _ b => loops b
+  | _ => []
+
+/-- the last loop in source order (for a function with one loop: that loop; with a nested pair: the inner one) —
+    lets theorems name a loop by position, so renaming the iterated variable does not matter -/
+def lastLoop (s : Stmt) : Option (String × Stmt) := (loops s).getLast?
+
+/-- the last loop of `s` is isolated for faults of the allowed classes -/
+def IsoLastLoop (allowed : RaiseSet) (s : Stmt) : Bool :=
+  match lastLoop s with
+  | some (_, b) => IsoBody allowed b
+  | none => false
 
 /-- the loop `id` of `s` is isolated for faults of the allowed classes -/
 def IsoLoopIn (allowed : RaiseSet) (id : String) (s : Stmt) : Bool :=
